@@ -55,7 +55,10 @@ def gen(tier, rng, harness=None, driver=None):
     # and inline nodes must stay inline (the one-construct catalogue of C01, here for its reference fields)
     from . import catalog
     from .modprops import hx
-    lines = ["!mod.keeps %s %s" % (hx("\x1f".join(frags or [])), hx(text)) for name, text, frags in catalog.DI if "splitDebugInlining" not in name]
+    lines = ["!mod.keeps %s %s" % (hx("\x1f".join(frags or [])), hx(text)) for name, text, frags in catalog.DI]
+    # M-DI: every kind of specialised node, distinct and not, with references in every reference-valued field (`distinct` and every `!N` must come back)
+    from . import pC01
+    lines += pC01.di_stream(rng, harness, driver, 60 if tier == "quick" else 2000)
     # M-Meta: whole metadata sections at byte level (proved: IDs unique and ascending in every accepted section, every reference denotes exactly one definition)
     from . import metagen
     lines += metagen.print_lines(rng, 150 if tier == "quick" else 6000)
@@ -135,7 +138,7 @@ def extra(res, findings, tier, rng, harness, driver):
         # everything must be reachable for LLVM to keep it: one named metadata node listing every definition
         ids = [l.split(" ")[0] for l in t.split("\n") if l and l[1].isdigit()]
         texts.append(("graph-%d" % i, t + "!keep = !{%s}\n" % ", ".join(ids)))
-    texts += [(n, t) for n, t, _ in catalog.DI if "splitDebugInlining" not in n]
+    texts += [(n, t) for n, t, _ in catalog.DI]
     out = refstage.run(res, findings, harness, "C17", texts)
     out["llvm_reference"]["graphs_with_uniqued_cycles_excluded"] = skipped
     return out
